@@ -60,7 +60,7 @@ def targeted_exprs():
     for k in ['k', 'x y', '', '"', '\\', '\n', '\x00', '\x07', '\x08', '\x0b', '\x0c', '\x1b', '\x7f', 'a\u00a0', '\u00ad', '\u200b', '\ufeff', '\U000e0001', '\u2028', 'é', '\U0001f600', 'if', '__cedar']:
         out += [lit(gen.vrec([(k, gen.vlong(1))])), ['access', lit(gen.vrec([(k, gen.vlong(1)), ('z', gen.vstr(k))])), S(k)],
                 ['eq', C, lit(gen.vrec([(k, gen.vset([gen.vrec([(k, gen.vbool(True))])]))]))]]
-    for s_ in ['', 'a', '"', '\\', "'", '\n\r\t', '\x00', '\x1f', '\x7f', '\x80', 'é', ' ', '﻿', '�', '\U0001f600', '*', '\\*', 'a*b', '́', 'ﬁ']:
+    for s_ in ['%', '100%d', '%s%%', 'at most 80% of', 'a%', '%!d(MISSING)', '{}', '$1', '\\n%v', '', 'a', '"', '\\', "'", '\n\r\t', '\x00', '\x1f', '\x7f', '\x80', 'é', ' ', '﻿', '�', '\U0001f600', '*', '\\*', 'a*b', '́', 'ﬁ']:
         out += [lit(gen.vstr(s_)), ['like', lit(gen.vstr('x')), ['pat', S(s_)]], ['like', lit(gen.vstr('x')), ['pat', ['w'], S(s_), ['w']]],
                 lit(gen.vent('User', s_)), ['eq', P, lit(gen.vent('User', s_))]]
     return out
@@ -81,11 +81,11 @@ def gen_policies(ctx, nrand):
         for sa in scopes_a:
             for sr in scopes_p:
                 n += 1
-                ann = ['annots'] + [[S(k), S(v)] for k, v in [('id', 'x'), ('a_b', ''), ('if', 'quote " and \\ and \n')][:n % 4]]
+                ann = ['annots'] + [[S(k), S(v)] for k, v in [('id', 'x'), ('a_b', ''), ('if', 'quote " and \\ and \n'), ('pct', 'at most 80% of the quota, %d %s %%')][:n % 5]]
                 pols.append(['policy', S('s%d' % n), r.choice(['permit', 'forbid']), sp, sa, sr, ['conds'], ann])
     for i in range(nrand):
         p = g.policy('r%d' % i, depth=r.choice([1, 2, 3, 4]))
-        ann = ['annots'] + [[S(k), S(r.choice(['', 'v', 'x "y"', 'é\n']))] for k in r.sample(['a', 'b', 'c', 'id', 'when', 'k9', '_x'], r.randrange(0, 4))]
+        ann = ['annots'] + [[S(k), S(r.choice(['', 'v', 'x "y"', 'é\n', '100%', '%d%%']))] for k in r.sample(['a', 'b', 'c', 'id', 'when', 'k9', '_x'], r.randrange(0, 4))]
         pols.append(p + [ann])
     return g, pols
 
